@@ -287,6 +287,18 @@ func (ps *PairShuffle) Verify(
 		return err
 	}
 
+	// The simple k-shuffle just verified must be the one of the vectors this
+	// proof commits to, R_i = A_i + lambda*B_i and S_i = C_i + lambda*D_i;
+	// otherwise it says nothing about A, B, C, D and any invertible linear
+	// map of the input ciphertexts can be "proven" to be a shuffle.
+	for i := range k {
+		R := grp.Point().Add(p1.A[i], grp.Point().Mul(v4.Zlambda, B[i]))
+		S := grp.Point().Add(p1.C[i], grp.Point().Mul(v4.Zlambda, p3.D[i]))
+		if !R.Equal(ps.pv6.p0.X[i]) || !S.Equal(ps.pv6.p0.Y[i]) {
+			return errors.New("invalid PairShuffleProof")
+		}
+	}
+
 	// V step 7
 	Phi1 := grp.Point().Null()
 	Phi2 := grp.Point().Null()
